@@ -373,7 +373,7 @@ func minInt(a, b int) int {
 }
 
 func drawName(rt *rapid.T) (string, string) {
-	kind := rp.Pick(rt, "nameKind", "traversal", "traversal", "traversal", "traversal-into-root", "dot", "dotdot", "empty", "whitespace", "slash", "absolute", "backslash", "nul", "long", "plain", "plain", "dotty-single", "trailing-slash", "prefixed", "prefixed", "encoded")
+	kind := rp.Pick(rt, "nameKind", "traversal", "traversal", "traversal", "traversal-into-root", "dot", "dotdot", "empty", "whitespace", "slash", "absolute", "backslash", "nul", "long", "long-then-traversal", "long-then-traversal", "plain", "plain", "dotty-single", "trailing-slash", "prefixed", "prefixed", "encoded")
 	tail := rp.Pick(rt, "tail", "x", "evil", "etc/passwd", "installed", "a/b/c", "precious.txt")
 	switch kind {
 	case "traversal":
@@ -398,6 +398,12 @@ func drawName(rt *rapid.T) (string, string) {
 		return rp.Pick(rt, "nul", "a\x00b", "\x00", "../\x00x"), kind
 	case "long":
 		return strings.Repeat(rp.Pick(rt, "longUnit", "a", "ab", "../"), rp.Pick(rt, "longN", 100, 150, 300)), kind
+	case "long-then-traversal":
+		// a first component at / around the lengths where file systems and buffers give up (NAME_MAX = 255,
+		// PATH_MAX = 4096), followed by a run that climbs out: the path is cleaned lexically before any
+		// system call sees the long component, so its length protects nothing
+		n := rp.Pick(rt, "longLen", 254, 255, 255, 256, 300, 1024, 4095, 4096, 5000)
+		return strings.Repeat("a", n) + "/" + strings.Repeat("../", rapid.IntRange(1, 4).Draw(rt, "dotdots")) + tail, kind
 	case "dotty-single":
 		return rp.Pick(rt, "dotty", "...", "..a", "a..", ".hidden", "a.b"), kind
 	case "trailing-slash":
